@@ -636,6 +636,9 @@ def index(eng, st, o, i, line):
     if k == 'rec':
         ks = z3.simplify(i.t) if i.ty.kind == 'str' else None
         if ks is None or not z3.is_string_value(ks):
+            if st.spec:
+                yield st, R('KeyError', line)
+                return
             raise core.EngineError('record indexed by a non-constant key at line %d' % line)
         kk = ks.as_string()
         if kk in o.t:
